@@ -10,6 +10,7 @@
   argument `GenericArgument::Type [] [tparam n]` must not be bound to a const value.
 -/
 import DisjointImpls.Lemmas.RevSubLemmas
+import DisjointImpls.MatchSchema
 namespace DI
 
 /-! ## Theorems -/
@@ -111,5 +112,16 @@ example :
   with_unfolding_all decide
 
 end Counterexamples
+
+
+/-! ## The source's field schema (regenerated facts) -/
+
+/-- every non-punctuation field of every syn struct with an `impl Substitute` is mentioned or rebuilt by its `substitute`, except
+    exactly the fields the model keeps verbatim (`MatchSchema.substituteVerbatim`: attributes, operators, names, flags, literals) -/
+theorem C10_every_field_rewritten :
+    MatchSchema.unexamined MatchFacts.substituteMentions = MatchSchema.substituteVerbatim := by decide +kernel
+
+/-- the set of types with an `impl Substitute` is the one the model covers -/
+theorem C10_substitute_impls : MatchFacts.substituteMentions.map Prod.fst = MatchSchema.substituteImpls := by decide +kernel
 
 end DI
